@@ -15,6 +15,17 @@ so that everything the engine caches per phase between calculations (alpha(T), p
 judged simulation starts.  (Added after calibration: a mutant that mis-computes alpha only when the temperature of a
 phase changes inside one instance was invisible to a lattice of fresh instances.)
 
+History "redef" (own bound; added after seeded regression C19-c, which keeps the cached Peng-Robinson a, b, alpha and
+log phi of a phase across its redefinition - invisible while every point ran on a freshly loaded database): (1) the
+calculation with the database's gas, (2) a PHASES block redefining the gas(es) - another literature set of critical
+constants, a clearly different "fitted" set, none at all (ideal gas), or (database without constants) the constants
+given for the first time, (3) the calculation again; as simulations of one RunString and as three RunString calls;
+fixed pressure, fixed volume and EQUILIBRIUM_PHASES.  (3) is judged by the same relations with the constants NOW in
+force and must equal the same (2)+(3) on a fresh instance (differential; statement tolerances).  Fingerprints of this
+bound end in "after PHASES redefinition".  Calibration: database variant "ideal" carries no GAS_BINARY_PARAMETERS lines,
+the engine then uses its documented hard-coded k_ij (H2O-CO2 0.19 ...), so the variant used here ("idealk") keeps the
+block; a 1e-14 mol left-over gas phase (reported P < 0.01 atm) is outside the quantifier for the comparison as well.
+
 Pre-saturated solution: pH from charge balance and phase boundaries X(valence) <-> gas at the gas's partial pressure; for
 NH3 the boundary pressure is capped at 0.1 atm.  (The first version fixed pH 7 and did not cap: 1150 of 15168 quick
 points then failed in the *initial solution* - hundreds of mol/kgw NH4+/HCO3- - which was an input-generation problem,
